@@ -19,7 +19,9 @@ package repository
 // truncated to 0, O the same range of another file of the same type (for packs:
 // a pack that holds a different, correctly sealed blob of the same length at
 // the same offset as the first blob), X
-// extended by 1 byte, E error}.  The complete answer tree to depth 3 (quick) /
+// extended by 1 byte, E error, R the transfer breaks off half-way and the consumer
+// is called a second time within the same Load with the true bytes (what
+// retry.Backend does; Backend.Load documents that the consumer must be idempotent)}.  The complete answer tree to depth 3 (quick) /
 // 4 (thorough) is explored (answers beyond the depth are T; a subtree is cut as
 // soon as the call consumes fewer answers than the prefix holds) for each API:
 //   LoadRaw      {data pack, index, snapshot, lock, key}
@@ -303,9 +305,19 @@ func (l *verifC02Liar) Load(ctx context.Context, h backend.Handle, length int, o
 		out = cut(l.files[l.other[h]])
 	case 'X':
 		out = append(append([]byte{}, out...), 0x5a)
+	case 'R':
+		// the transfer breaks off half-way and the backend (like retry.Backend) calls the consumer again
+		// within the same Load with the complete, true stream
+		if err := fn(io.MultiReader(bytes.NewReader(out[:len(out)/2]), verifC02BrokenReader{})); err == nil {
+			return nil
+		}
 	}
 	return fn(bytes.NewReader(out))
 }
+
+type verifC02BrokenReader struct{}
+
+func (verifC02BrokenReader) Read([]byte) (int, error) { return 0, verifC02ErrLie }
 
 type verifC02Fixture struct {
 	version  uint
@@ -619,7 +631,7 @@ func verifC02APIs() []verifC02API {
 	}
 }
 
-const verifC02Alphabet = "TFSZOXE"
+const verifC02Alphabet = "TFSZOXER"
 
 func TestVerif_C02(t *testing.T) {
 	r := vh.Start(t, "C02")
